@@ -936,3 +936,77 @@ Section Final.
     snd (Proc.walk_fields src_facts reg proc truthy (FOne n false d v rest) log) = FOne n false d v (after_fields reg proc rest).
   Proof. rewrite walk_fields_src_spec. reflexivity. Qed.
 End Final.
+
+(* ================================================================== match-rule processors *)
+Scheme ptree_mind := Induction for ptree Sort Prop
+  with ptrees_mind := Induction for ptrees Sort Prop.
+Combined Scheme ptree_mutind from ptree_mind, ptrees_mind.
+
+Section MatchProofs.
+  Variable mreg : nat -> bool.
+  Variable mproc : nat -> list N -> list N.
+  Notation pmatch := (pmatch mreg mproc).
+  Notation pmatch_join := (pmatch_join mreg mproc).
+  Notation mval := (mval mreg mproc).
+  Notation mvals := (mvals mreg mproc).
+  Notation mevents_kids := (mevents_kids mreg mproc).
+
+  Lemma pmatch_node r ks log :
+    pmatch (PNode r ks) log =
+    let '(log1, res) := match ks with PCons k PNil => pmatch k log | _ => pmatch_join ks log end in
+    mcall mreg mproc r res log1.
+  Proof. reflexivity. Qed.
+
+  Lemma pmatch_join_cons k ks log :
+    pmatch_join (PCons k ks) log =
+    let '(log1, a) := pmatch k log in let '(log2, b) := pmatch_join ks log1 in (log2, a ++ b).
+  Proof. reflexivity. Qed.
+
+  Lemma mcall_spec r s log :
+    mcall mreg mproc r s log = (log ++ (if mreg r then [(r, s)] else []), mapp mreg mproc r s).
+  Proof. unfold mcall, mapp. destruct (mreg r); [reflexivity | rewrite app_nil_r; reflexivity]. Qed.
+
+  Lemma pmatch_spec_all :
+    (forall t log, pmatch t log = (log ++ Proc.mevents mreg mproc t, mval t)) /\
+    (forall ks log, pmatch_join ks log = (log ++ mevents_kids ks, mvals ks)).
+  Proof.
+    apply ptree_mutind.
+    - intros r s log. cbn [Proc.pmatch Proc.mevents Proc.mval]. apply mcall_spec.
+    - intros r ks IH log. rewrite pmatch_node.
+      assert (E : match ks with PCons k PNil => pmatch k log | _ => pmatch_join ks log end
+                  = (log ++ mevents_kids ks, mvals ks)).
+      { destruct ks as [|k [|k2 ks2]]; try apply IH.
+        (* single child: the join of one result is the result *)
+        specialize (IH log). rewrite pmatch_join_cons in IH.
+        destruct (pmatch k log) as [l1 a].
+        change (pmatch_join PNil l1) with (l1, @nil N) in IH. cbv iota beta in IH.
+        rewrite app_nil_r in IH. exact IH. }
+      rewrite E. rewrite mcall_spec. cbn [Proc.mevents Proc.mval]. rewrite app_assoc. reflexivity.
+    - intros log. cbn. rewrite app_nil_r. reflexivity.
+    - intros k IHk ks IHks log. rewrite pmatch_join_cons, IHk, IHks.
+      cbn [Proc.mevents_kids Proc.mvals]. rewrite app_assoc. reflexivity.
+  Qed.
+
+  Lemma pmatch_spec t log : pmatch t log = (log ++ Proc.mevents mreg mproc t, mval t).
+  Proof. apply pmatch_spec_all. Qed.
+
+  Lemma pmatch_forest_spec ts log :
+    pmatch_forest mreg mproc ts log = log ++ flat_map (Proc.mevents mreg mproc) ts.
+  Proof.
+    revert log. induction ts as [|t ts IH]; intro log; cbn [pmatch_forest flat_map].
+    - rewrite app_nil_r. reflexivity.
+    - rewrite pmatch_spec. cbn [fst]. rewrite IH, app_assoc. reflexivity.
+  Qed.
+
+  (* innermost first, left to right: the calls of a registered node come after all calls of
+     its children, which come in child order; its argument is the concatenation of the
+     children's results *)
+  Lemma mevents_node r ks :
+    mreg r = true ->
+    Proc.mevents mreg mproc (PNode r ks) = mevents_kids ks ++ [(r, mvals ks)].
+  Proof. intro H. cbn [Proc.mevents]. rewrite H. reflexivity. Qed.
+
+  Lemma mevents_kids_cons k ks :
+    mevents_kids (PCons k ks) = Proc.mevents mreg mproc k ++ mevents_kids ks.
+  Proof. reflexivity. Qed.
+End MatchProofs.
